@@ -10,7 +10,7 @@ RULE = ("family `log`: a real VhostUserDaemon whose guest memory is GuestMemoryM
         "history shapes; then writes through GuestMemory (write_slice, write_obj), the Bitmap interface directly "
         "(slice_at + mark_dirty with zero, huge and overflowing offsets/lengths) and vring.add_used on the daemon's own "
         "ring object, with offsets/lengths crossing 0, 1 and many page and region boundaries; 2..16 concurrent writer "
-        "threads on the bits of one log byte. Observation = the newly set / cleared bits of the whole log file after each "
+        "threads on the bits of one log byte, also while SET_LOG_BASE is re-sent (`cwl`). Observation = the newly set / cleared bits of the whole log file after each "
         "op; the Spec driver recomputes the touched pages (Spec.DirtyLog.pages) and demands exactly bit gpa/4096 (LSB "
         "first) of the window and nothing else; the model driver predicts the same bytes from Model.Bitmap. "
         "A refused request ends the daemon's connection thread; the harness reconnects to the same daemon and the history goes on (a refused SET_LOG_BASE must leave the accepted log in force). distinct = distinct scenario lines; non-trivial = scenarios in which a log was accepted and at least one write "
@@ -208,6 +208,13 @@ class LogFamily(Family):
             for start in (8, 0x40):
                 L.append(self.line([f"mt:{hx(start * PG)}/{hx(16 * PG)}", f"lb:{hx(0x40)}:1000",
                                     f"cw:{hx(nt)}:{hx(rounds)}:{hx(start * PG)}", f"cw:{hx(nt)}:{hx(rounds // 3)}:{hx((start + 8) * PG)}"]))
+        # writers concurrent with a re-sent SET_LOG_BASE (same window / moved window): no write may miss its bit
+        for nt in ([2, 4, 8, 16] if thorough else [4, 8]):
+            for start in (8, 0x40):
+                L.append(self.line([f"mt:{hx(start * PG)}/{hx(16 * PG)}", f"lb:{hx(0x40)}:1000",
+                                    f"cwl:{hx(nt)}:{hx(400 if thorough else 60)}:{hx(start * PG)}:40:1000", "w:%x:1" % (start * PG)]))
+                L.append(self.line([f"mt:{hx(start * PG)}/{hx(16 * PG)}", f"lb:{hx(0x40)}:0",
+                                    f"cwl:{hx(nt)}:{hx(400 if thorough else 60)}:{hx((start + 8) * PG)}:40:2000"]))
         # log retention with concurrent writers in a region added later
         L.append(self.line(["mt:8000/8000", "lb:40:0", "add:10000/8000", f"cw:8:{hx(rounds // 3)}:10000"]))
         seen = set()
@@ -223,7 +230,7 @@ class LogFamily(Family):
             kinds = kinds[:upto + 1]
         out = []
         for k in kinds:
-            k = "w" if k in ("w", "wo", "mk", "au", "cw") else k
+            k = "w" if k in ("w", "wo", "mk", "au", "cw", "cwl") else k
             if not out or out[-1] != k:
                 out.append(k)
         return ">".join(out)
